@@ -95,8 +95,10 @@ theorem pyOp_cases {op : Str} {k : BinKind} (h : pyOpTable.lookup op = some k) :
 theorem step_cat (ops : FloatOps F) {a b ca cb : Str} (ha : Quoted a ca) (hb : Quoted b cb) :
     Good Refusal (step ops ['+'] (.str a) (.str b)) (.str (ca ++ cb)) := by
   by_cases h : (allowString a && allowString b) = true
-  · simp [step, h, Good]
-    exact Sim.str (quoted_cat ha hb)
+  · by_cases hj : joinsEscape (unq a) (unq b) = true
+    · simp [step, h, catSafe, hj, Except.map, Good, Refusal]
+    · simp [step, h, catSafe, hj, Except.map, Good]
+      exact Sim.str (quoted_cat ha hb)
   · simp [step, h, Good, Refusal]
 
 theorem step_div_int (ops : FloatOps F) {a b : Int} {z : F} (h : ops.truediv a b = .ok z) :
@@ -166,7 +168,9 @@ theorem startsWith2 {tok : Str} {a b : Char} (h : Str.startsWith tok [a, b] = tr
   | c :: d :: r => simp [Str.startsWith] at h; exact ⟨r, by rw [h.1, h.2]⟩
 
 theorem pyInt10_upperX (r : Str) : pyInt 10 ('0' :: 'X' :: r) = .error .valueError := by
-  simp [pyInt, List.dropWhile, isWs, signed, parseDigits, digVal, Str.hexVal, goDigits]
+  have h0 : isWs '0' = false := by decide
+  have hX : isWs 'X' = false := by decide
+  simp [pyInt, List.dropWhile, h0, hX, signed, parseDigits, digVal, Str.hexVal, goDigits]
 
 theorem ite_some_none {c : Prop} [Decidable c] {a b : Nat} (h : (if c then some a else none) = some b) : b = a := by
   split at h <;> simp at h
